@@ -343,6 +343,22 @@ func programs(thorough bool) []program {
 			add(nil, seqs[i], seqs[j])
 		}
 	}
+	// "read your own write while somebody else is busy": thread 1 = a mutating operation followed
+	// by any operation, thread 2 = one operation, from three pre-states. Switching at the boundary
+	// between thread 1's two operations is free, so "a1 completes; the other thread is preempted
+	// inside its operation; a2 observes" costs one preemption.
+	for _, pre := range [][]int{nil, preShare, {0, 1}} {
+		for a1 := 0; a1 < A; a1++ {
+			if !isAdd(a1) {
+				continue
+			}
+			for a2 := 0; a2 < A; a2++ {
+				for b := 0; b < A; b++ {
+					add(pre, []int{a1, a2}, []int{b})
+				}
+			}
+		}
+	}
 	if thorough {
 		for i := 0; i < A; i++ {
 			for j := i; j < A; j++ {
@@ -473,7 +489,10 @@ func runProgram(f *fixture, p program, bound, maxExec int) progResult {
 		for ti, th := range p.Threads {
 			ti, th := ti, th
 			bodies = append(bodies, func() {
-				for _, o := range th {
+				for k, o := range th {
+					if k > 0 {
+						vsched.Boundary("op-boundary") // between two operations: switching away is free
+					}
 					inv := vsched.StepIndex()
 					out := ops[o].Do(f, obj)
 					mu.Lock()
